@@ -72,7 +72,8 @@ func (i *Ignore) IsIncluded(path string, index *Index) bool {
 		}
 	}
 	for _, exFile := range i.paths {
-		exRegexp := regexp.MustCompile(exFile)
+		// a pattern applies to whole path components: '.goit/' must not hide 'x.goit/'
+		exRegexp := regexp.MustCompile("(^|/)" + exFile)
 		if exRegexp.MatchString(target) {
 			return true
 		}
